@@ -144,6 +144,28 @@ Proof.
   apply ExnM_bind; [apply ExnM_seqr; exact Hc|]. intros [[? ?] ?]. apply ExnM_ret.
 Qed.
 
+Lemma ExnM_render_loop_choices f chs : Forall (EC f) chs -> ExnM (render_loop_choices f chs).
+Proof.
+  induction 1 as [|c l Hc Hl IH]; simpl; [apply ExnM_ret|]. destruct Hc as [Ht _].
+  apply ExnM_bind; [apply ExnM_seqr; exact Ht|]. intros [[? ?] ?].
+  apply ExnM_bind; [exact IH|]. intros ?. apply ExnM_ret.
+Qed.
+
+Lemma ExnM_render_loop_items f vs cont chs items :
+  Forall (fun t => ExnM (f t)) cont -> Forall (EC f) chs -> ExnM (render_loop_items f vs cont chs items).
+Proof.
+  intros Hc Hch. induction items as [|it rest IH]; simpl; [apply ExnM_ret|].
+  apply ExnM_bind; [apply ExnM_get|]. intros s0.
+  destruct (loop_bind vs it (vars (nc s0))) as [v1 orig].
+  apply ExnM_bind; [apply ExnM_set_vars|]. intros _.
+  apply ExnM_bind; [apply ExnM_seqr; exact Hc|]. intros [[txt j] ds].
+  apply ExnM_bind; [apply ExnM_render_loop_choices; exact Hch|]. intros chds.
+  apply ExnM_bind; [apply ExnM_get|]. intros s1.
+  apply ExnM_bind; [apply ExnM_set_vars|]. intros _.
+  destruct j; [apply ExnM_ret|].
+  apply ExnM_bind; [exact IH|]. intros [[? ?] ?]. apply ExnM_ret.
+Qed.
+
 Lemma ExnM_render_tok t : ExnM (render_tok orc ctxkeys t).
 Proof.
   induction t using token_ind'; cbn [render_tok].
@@ -156,7 +178,11 @@ Proof.
     eapply Forall_impl; [|exact H]. intros [cond cont chs] [Hc Hch]. split; [exact Hc|].
     eapply Forall_impl; [|exact Hch]. intros c0 [A B]. split; assumption.
   - destruct (String.eqb v "" || String.eqb c ""); [apply ExnM_ret|].
-    apply ExnM_catch. intros _. apply ExnM_raise. right; reflexivity.
+    apply ExnM_bind; [apply ExnM_ctx_now|]. intros ctx.
+    destruct (match o_eval orc ctx c with Ok c0 => py_iter c0 | Exc e => Exc e end) as [items|e];
+      [|apply ExnM_ret].
+    apply ExnM_render_loop_items; [assumption|].
+    eapply Forall_impl; [|exact H0]. intros c0 [A B]. split; assumption.
   - apply ExnM_ret.
   - apply ExnM_bind; [apply ExnM_exec_statement|]. intros; apply ExnM_ret.
   - apply ExnM_bind; [apply ExnM_exec_block|]. intros; apply ExnM_ret.
